@@ -23,25 +23,34 @@ from .common import parallel_map
 RULE = ("cases = (database state reached by a random history of 0-9 completed commands, sometimes with one killed "
         "command in it (stale temporary file); one mutating command: declare / declare -t / tag (re)assignment / "
         "untag with or without version / undeclare with or without version / forced declare with a table stream (interned table file, 2 contents), over 2 products x 2 versions x 2 unrelated flavors x 2 tags; "
-        "every crash point k of that command).  Non-trivial: the command has at least one effect; distinct = "
+        "every crash point k of that command, INCLUDING every effect of every save of the product cache (utils.AtomicFile: "
+        "temporary file, buffered write, fsync, close, rename, per flavor); after each kill a fresh reader that finds the "
+        "leftover cache, then one that rebuilds it).  Non-trivial: the command has at least one effect; distinct = "
         "distinct (state, command) digests; evaluations counts crash points")
 TRUSTED = ["a kill is injected between two Python-level effects (audit events open/rename/remove/mkdir/rmdir and the "
            "wrapped write/close of the record writers); every print of a writer is flushed to disk as one chunk",
            "kernel-level torn writes, power loss and fsync ordering are not exhibited",
            "POSIX rename/unlink/mkdir/rmdir are atomic; a directory listing sees a consistent snapshot",
+           "the cache files are written through Python's buffered file object, untouched by the tracer: the injected kill "
+           "(os._exit) loses the data still in that buffer, as a killed eups process would; write/fsync/close of that object are "
+           "crash points; a pickle larger than the buffer (8 KiB) would reach the temporary file in part before the close - "
+           "the model keeps the temporary file empty until the close, which is not observable (temporary cache files are not compared)",
            "the copy of an interned table file (shutil.copy2 inside utils.copyfile) is one effect: no kill is injected between "
            "its open and the end of the data (the model has the empty intermediate state; the witness for the pinned "
            "copyfile is the state after its unlink)"]
 ASSUMPTIONS = ["one writable stack, no user tags, the two flavors are unrelated (neither is a fallback of the other)",
-               "the user's cache directory is removed before every traced command (cache files are C07's subject); "
-               "the reader's cache directory is removed too, so its listing is rebuilt from the record files",
+               "the user's cache directory is removed before every traced command, whose Eups object then builds it anew "
+               "(20 ms before the command starts); which flavors' cache files that object holds is read from it and given "
+               "to the model as part of the initial state; after a kill the first reader finds the cache as it was left, "
+               "the second one removes it and rebuilds its listing from the record files",
                "a temporary file left beside an interned table file is not compared (nothing lists that directory); the "
                "creation of the directories that hold an interned table file is not modelled"]
 
 MIRRORS = [("python/eups/db/VersionFile.py", "*"), ("python/eups/db/ChainFile.py", "*"), ("python/eups/db/Database.py", "*"),
            ("python/eups/tags.py", "*"), ("python/eups/Eups.py", "Eups.declare"), ("python/eups/Eups.py", "Eups.undeclare"),
            ("python/eups/Eups.py", "Eups.assignTag"), ("python/eups/Eups.py", "Eups.unassignTag"),
-           ("python/eups/utils.py", "copyfile")]
+           ("python/eups/utils.py", "copyfile"), ("python/eups/utils.py", "AtomicFile"),
+           ("python/eups/stack/ProductStack.py", "ProductStack.persist"), ("python/eups/stack/ProductStack.py", "ProductStack.save")]
 
 PRODUCTS = ["pa", "pb"]
 VERSIONS = ["1", "2"]
@@ -116,6 +125,10 @@ def _child_cmd(stack, userdata, cmd, crash_at, trace):
     tr = lib_fstrace.Tracer(os.path.join(stack, "ups_db"), crash_at, also=[os.path.join(userdata, "_caches_")])
     e = common.new_eups(flavor=FLAVORS[cmd["f"]], force=bool(cmd.get("force")) or cmd["op"] == "declaretab")
     time.sleep(0.02)      # the cache files this Eups has just written are older than anything the command writes
+    try:
+        cache_flavors = list(e.versions[stack].getFlavors())       # the cache files this Eups object holds and will save
+    except Exception:  # noqa
+        cache_flavors = None
     tr.install()
     tr.wrap_copy2(common.eups_mod("utils"))
     tr.wrap_atomicfile(common.eups_mod("utils"))
@@ -125,7 +138,7 @@ def _child_cmd(stack, userdata, cmd, crash_at, trace):
     except Exception as ex:  # noqa
         err = lib_records.exc_name(ex)
     tr.active = False
-    return {"events": tr.events, "err": err, "pid": os.getpid()}
+    return {"events": tr.events, "err": err, "pid": os.getpid(), "cache_flavors": cache_flavors}
 
 
 def _child_read(stack, userdata):
@@ -311,24 +324,44 @@ def run_group(group):
         init = snapshot(S)
         for cmd in group["cmds"]:
             _restore(db, saved)
-            out.append(_run_cmd(S, ud, db, saved, init, cmd))
+            out.append(_run_cmd(S, ud, db, saved, init, cmd, group.get("sample", False)))
         return out
     finally:
         _LISTINGS.clear()
         common.rmtree(R)
 
 
-def _run_cmd(S, ud, db, saved, init, cmd):
+def _crash_points(events, cmd, sample):
+    """All crash points; or, for the random histories of the quick portion, a sample: the first one, every point
+    right after an effect that changes something in place (rename, unlink, mkdir, rmdir), every point inside the
+    LAST save of the cache, and a third of the others (chosen by a digest of the command, so that a replay finds
+    the same points).  The corpus and the enlarged budget (thorough tier, escalated run) use all of them."""
+    n = len(events)
+    if not sample or n <= 12:
+        return list(range(n))
+    last_save = max([i for i, e in enumerate(events) if e[0] == "creat" and any("/_caches_/" in x for x in e[1:])] or [n])
+    ks = []
+    for k in range(n):
+        prev = events[k - 1] if k > 0 else None
+        if k == 0 or prev[0] in ("rename", "unlink", "mkdir", "rmdir") or k >= last_save \
+                or int(common.digest(json.dumps([cmd, k], sort_keys=True))[:6], 16) % 3 == 0:
+            ks.append(k)
+    return ks
+
+
+def _run_cmd(S, ud, db, saved, init, cmd, sample=False):
     full = common.in_child(_child_cmd, S, ud, cmd, None, True)
     if full[0] != "ok":
         return {"init": init, "full": "child " + str(full[:3])}
     events = full[1]["events"]
-    obs = {"init": init, "events": events, "err": full[1]["err"], "states": []}
+    obs = {"init": init, "events": events, "err": full[1]["err"], "states": [], "cache_flavors": full[1].get("cache_flavors")}
     obs["final"] = snapshot(S, own_pid=full[1]["pid"])
     obs["final"]["cache"] = cache_snapshot(S, ud)
     obs["final_cached_listing"] = _reader_cached(S, ud)
     obs["final_listing"] = _reader(S, ud)
-    for k in range(len(events)):
+    obs["crash_points"] = [len(events), 0]
+    for k in _crash_points(events, cmd, sample):
+        obs["crash_points"][1] += 1
         _restore(db, saved)
         r = common.in_child(_child_cmd, S, ud, cmd, k, True)
         if not (r[0] == "died" and (r[1] >> 8) == lib_fstrace.CRASH_STATUS):
@@ -337,7 +370,15 @@ def _run_cmd(S, ud, db, saved, init, cmd):
         # the killed child's temporary file is the one that was not there before
         st = _mark_own_tmp(snapshot(S), init)
         st["cache"] = cache_snapshot(S, ud)
-        cached = _reader_cached(S, ud)            # first: it uses the cache the killed command left
+        # the reader that finds the leftover cache runs first.  It is run where the last effect carried out changed a
+        # record file in place, a directory or anything of the cache; after an effect on a *temporary* record file (its
+        # creation, a write, its close) the records in place and the cache are what they were one crash point earlier
+        last = events[k - 1] if k > 0 else None
+        if last is None or last[0] in ("rename", "unlink", "mkdir", "rmdir") or any("/_caches_/" in x for x in last[1:]) \
+                or not obs["states"] or obs["states"][-1]["k"] != k - 1 or "cached_listing" not in obs["states"][-1]:
+            cached = _reader_cached(S, ud)
+        else:
+            cached = obs["states"][-1]["cached_listing"]
         obs["states"].append({"k": k, "snap": st, "cached_listing": cached, "listing": _reader(S, ud)})
     return obs
 
@@ -457,6 +498,16 @@ def canon_tabs(tabs):
     """Interned table files: the files themselves; a temporary file beside one is seen by no reader and by no command
     (nothing lists that directory), so its presence is not compared."""
     return sorted(([p, c] for p, c in (tabs or []) if p[0] == "main"), key=json.dumps)
+
+
+def canon_cache(c):
+    """Cache files in place: {flavor id: complete | empty | garbled}; from a snapshot ({name: status}) or from the model
+    ([[id, status], ...]); absent files are left out."""
+    if c is None:
+        return None
+    if isinstance(c, dict):
+        return sorted([CACHE_FLAVORS.index(f), s_] for f, s_ in c.items() if s_ != "absent")
+    return sorted([f, s_] for f, s_ in c)
 
 
 def canon_fs(files, dirs):
@@ -637,14 +688,14 @@ def _work(groups):
     return [run_group(g) for g in groups]
 
 
-def evaluate(ctx, cases, workers=None):
+def evaluate(ctx, cases, workers=None, sample=False):
     """cases = [{"history", "cmd"}]; cases with the same history share one construction of the state."""
     groups, index = [], {}
     for i, c in enumerate(cases):
         key = json.dumps(c["history"], sort_keys=True)
         if key not in index:
             index[key] = len(groups)
-            groups.append({"history": c["history"], "cmds": [], "ix": []})
+            groups.append({"history": c["history"], "cmds": [], "ix": [], "sample": sample})
         g = groups[index[key]]
         g["cmds"].append(c["cmd"])
         g["ix"].append(i)
@@ -664,8 +715,15 @@ def evaluate(ctx, cases, workers=None):
             g = groups[k + j * nw]
             for ix, o in zip(g["ix"], obs_list):
                 impl[ix] = o
+    # the cache files the traced process holds and saves (ProductStack.getFlavors() of its Eups object, read before the
+    # command starts: part of the initial state, like the directory-listing order)
+    def cfl(o):
+        l = o.get("cache_flavors")
+        if not l or any(f not in CACHE_FLAVORS for f in l):
+            raise common.InfraError("flavors of the product cache not observed: %r" % (l,))
+        return [CACHE_FLAVORS.index(f) for f in l]
     reqs = [{"m": "c08", "atomic": True, "fs": model_fs_input(o["init"]), "tabs": canon_tabs(o["init"].get("tabs")),
-             "cmd": c["cmd"], "flavors": [0, 1]}
+             "cmd": c["cmd"], "flavors": [0, 1], "cache_flavors": cfl(o)}
             for c, o in zip(cases, impl)]
     answers = ctx.lean.ask_many(reqs)
     for c, o, a in zip(cases, impl, answers):
@@ -687,7 +745,14 @@ def check_case(ctx, case, obs, ans):
     for e in raw_eff:
         if e is not None and e[0] == "cache" and e[1] == "rename" and e[-1][0] == "cmain":
             ctx.hist("cache-save=%s" % (CACHE_FLAVORS[e[-1][1]] if isinstance(e[-1][1], int) else e[-1][1]))
-    all_eff = [None if (e is not None and e[0] == "cache") else e for e in raw_eff]
+    # pickle.dump writes the buffered file object in one or several calls: consecutive writes to the same temporary
+    # cache file are one effect (nothing reaches the disk at any of them)
+    all_eff = []
+    for i, e in enumerate(raw_eff):
+        if e is not None and e[0] == "cache" and e[1] == "write" and i > 0 and raw_eff[i - 1] == e:
+            all_eff.append(None)
+        else:
+            all_eff.append(e)
     impl_eff = [e for e in all_eff if e is not None]
     # crash point k of the implementation (an index into its events) = crash point kmap[k] of the model (events that
     # are not modelled - creation of the directories of an interned table file - change nothing a reader sees)
@@ -702,6 +767,9 @@ def check_case(ctx, case, obs, ans):
                                           "-noversion" if cmd["op"] not in ("declare", "declaretab") and cmd.get("v") is None else "")))
     if obs["init"].get("tabs"):
         ctx.hist("state=with-interned-table")
+    if obs.get("crash_points"):
+        ctx.hist("crash-points-all", obs["crash_points"][0])
+        ctx.hist("crash-points-run", obs["crash_points"][1])
     if cmd["op"] == "declaretab":
         old_t = [c for p_, c in obs["init"].get("tabs", []) if p_ == ["main", "t", cmd["p"], cmd["v"], cmd["f"]]]
         ctx.hist("table=%s" % ("new" if not old_t else "same" if old_t[0] == {"tab": cmd["tab"]} else "replaced"))
@@ -724,6 +792,8 @@ def check_case(ctx, case, obs, ans):
         if canon_fs(obs["final"]["files"], obs["final"]["dirs"]) != canon_fs(fin_m["fs"]["files"], fin_m["fs"]["dirs"]):
             ctx.disagree("final_state", inp, canon_fs(obs["final"]["files"], obs["final"]["dirs"]),
                          canon_fs(fin_m["fs"]["files"], fin_m["fs"]["dirs"]))
+        if canon_cache(obs["final"].get("cache")) != canon_cache(fin_m.get("cache")):
+            ctx.disagree("final_cache", inp, canon_cache(obs["final"].get("cache")), canon_cache(fin_m.get("cache")))
         if canon_tabs(obs["final"].get("tabs")) != canon_tabs(fin_m.get("tabs")):
             ctx.disagree("final_tables", inp, canon_tabs(obs["final"].get("tabs")), canon_tabs(fin_m.get("tabs")))
         if obs["final_listing"] != model_listing(fin_m["listing"]):
@@ -751,6 +821,8 @@ def check_case(ctx, case, obs, ans):
                 ctx.disagree("crash_state", {**inp, "k": k}, impl_fs, mo_fs)
             elif impl_tabs != mo["tabs"]:
                 ctx.disagree("crash_tables", {**inp, "k": k}, impl_tabs, mo["tabs"])
+            elif canon_cache(st["snap"].get("cache")) != canon_cache(ms.get("cache")):
+                ctx.disagree("crash_cache", {**inp, "k": k}, canon_cache(st["snap"].get("cache")), canon_cache(ms.get("cache")))
             elif st["listing"] != mo["listing"]:
                 ctx.disagree("crash_listing", {**inp, "k": k}, st["listing"], mo["listing"])
         impl_out = {"fs": impl_fs, "tabs": impl_tabs, "listing": st["listing"]}
@@ -809,45 +881,61 @@ def enum_states():
         yield hist
 
 
-def run(ctx):
-    import time
-    cc = corpus_cases()
-    ctx.hist("corpus", len(cc))
-    if cc:
-        evaluate(ctx, cc)
-    if ctx.tier == "thorough" or ctx.escalated:
-        # every crash point of every command of flavor 0 on pa from every state of the single-product universe
-        # (the states come in flavor-symmetric pairs, so the commands of flavor 1 are covered up to renaming)
-        cmds = [c for c in all_commands() if c["p"] == 0 and c["f"] == 0]
-        reserve = 0.15 * (ctx.deadline - ctx.t0)          # keep some of the budget for the random histories
-        batch, nst, complete = [], 0, True
-        for hist in enum_states():
-            if time.time() > ctx.deadline - reserve:
-                complete = False
-                ctx.note("thorough enumeration stopped by the time budget after %d of 324 states" % nst)
-                break
-            batch += [{"history": hist, "cmd": c} for c in cmds]
-            nst += 1
-            if nst % 12 == 0:
-                evaluate(ctx, batch)
-                batch = []
-        if batch:
-            evaluate(ctx, batch)
-        ctx.hist("enumerated-states", nst)
-        if complete:
-            ctx.note("exhaustive: all 324 states of the single-product universe x %d commands x every crash point" % len(cmds))
-    nstates = ctx.n(24, 120)
-    done = 0
-    soft = ctx.t0 + (70 if ctx.tier == "quick" and not ctx.escalated else 1e9)   # keep the quick tier well under 3 minutes
-    while done < nstates and not ctx.out_of_time() and time.time() < soft:
-        evaluate(ctx, gen_cases(ctx.rng, 6, ctx.n(8, 24)))
-        done += 6
+def _floors(ctx):
     if ctx.distinct_nontrivial >= 20 and min(ctx.histogram.get("cache-save=generic", 0), ctx.histogram.get("cache-save=Linux", 0)) < 10:
         raise common.InfraError("degenerate distribution: crash points inside the writes of the product cache: %d saves of the "
                                 "last flavor's file (generic), %d of Linux" % (ctx.histogram.get("cache-save=generic", 0),
                                                                                ctx.histogram.get("cache-save=Linux", 0)))
     if ctx.evaluations and ctx.distinct_nontrivial < 20:
         raise common.InfraError("degenerate distribution: %d commands with effects" % ctx.distinct_nontrivial)
+    for k in ("cmd=declaretab", "cmd=undeclare-noversion"):
+        if ctx.distinct_nontrivial >= 40 and ctx.histogram.get(k, 0) + ctx.histogram.get(k + "+tag", 0) < 2:
+            raise common.InfraError("degenerate distribution: %d cases of class %s" % (ctx.histogram.get(k, 0), k))
+
+
+def run(ctx):
+    """Order (also under ctx.escalated, i.e. whenever the mirrored source has changed): (1) the corpus, (2) the ORDINARY quick
+    portion - random histories with every command kind drawn from one pool, so that every class gets its share - and its
+    distribution floors, and only then (3) the enlarged budget of the thorough tier / an escalated run: the exhaustive
+    family and more random histories."""
+    cc = corpus_cases()
+    ctx.hist("corpus", len(cc))
+    if cc:
+        evaluate(ctx, cc)
+    big = ctx.tier == "thorough" or ctx.escalated
+    # (2) the ordinary quick portion, first and completely
+    done = 0
+    soft = ctx.t0 + (70 if ctx.tier == "quick" else 1e9)        # keeps the quick tier well under 3 minutes
+    while done < 24 and not ctx.out_of_time() and (time.time() < soft or done == 0):
+        evaluate(ctx, gen_cases(ctx.rng, 4, 8), sample=(ctx.tier == "quick"))
+        done += 4
+    _floors(ctx)
+    if not big:
+        return
+    # (3) every crash point of every command of flavor 0 on pa from every state of the single-product universe
+    # (the states come in flavor-symmetric pairs, so the commands of flavor 1 are covered up to renaming)
+    cmds = [c for c in all_commands() if c["p"] == 0 and c["f"] == 0]
+    reserve = 0.25 * max(0.0, ctx.deadline - time.time())      # keep some of the budget for more random histories
+    batch, nst, complete = [], 0, True
+    for hist in enum_states():
+        if time.time() > ctx.deadline - reserve:
+            complete = False
+            ctx.note("exhaustive enumeration stopped by the time budget after %d of 324 states" % nst)
+            break
+        batch += [{"history": hist, "cmd": c} for c in cmds]
+        nst += 1
+        if nst % 12 == 0:
+            evaluate(ctx, batch)
+            batch = []
+    if batch:
+        evaluate(ctx, batch)
+    ctx.hist("enumerated-states", nst)
+    if complete:
+        ctx.note("exhaustive: all 324 states of the single-product universe x %d commands x every crash point" % len(cmds))
+    while done < 120 and not ctx.out_of_time():
+        evaluate(ctx, gen_cases(ctx.rng, 6, 24))
+        done += 6
+    _floors(ctx)
 
 
 def replay(ctx, rp):
